@@ -142,6 +142,7 @@ type flowTruth struct {
 	firstIdx       int
 	firstNew       bool // earliest datagram comes from the captures of the current import
 	hasOld, hasNew bool
+	swapped        bool // the flow's "server" side sent the earliest datagram
 }
 
 func truthOf(pcaps map[string]*pcapDef, processed []string, newOnes map[string]bool) map[int]*flowTruth {
@@ -163,7 +164,11 @@ func truthOf(pcaps map[string]*pcapDef, processed []string, newOnes map[string]b
 	for _, d := range all {
 		ft := res[d.flow]
 		if ft == nil {
+			// the sender of the earliest datagram is the client of the stream
 			ft = &flowTruth{flow: d.flow, cport: 1000 + d.flow, sport: 2000 + d.flow, firstFile: d.file, firstIdx: d.idx, firstNew: newOnes[d.file]}
+			if d.dir == 's' {
+				ft.cport, ft.sport, ft.swapped = 2000+d.flow, 1000+d.flow, true
+			}
 			res[d.flow] = ft
 		}
 		if newOnes[d.file] {
@@ -171,7 +176,7 @@ func truthOf(pcaps map[string]*pcapDef, processed []string, newOnes map[string]b
 		} else {
 			ft.hasOld = true
 		}
-		if d.dir == 'c' {
+		if (d.dir == 'c') != ft.swapped {
 			ft.cbytes += len(d.payload)
 			ft.cdata += d.payload
 		} else {
@@ -532,6 +537,13 @@ func readView(v *manager.View, prefetch bool, convs []string) ([]streamObs, erro
 	return res, err
 }
 
+func flowOfPort(p int) int {
+	if p >= 2000 {
+		return p - 2000
+	}
+	return p - 1000
+}
+
 func obsString(os []streamObs) string {
 	b := strings.Builder{}
 	for _, o := range os {
@@ -557,9 +569,9 @@ func (h *harness) checkOracles(st manager.VerifState) {
 			h.complain("C10", "stream id %d listed twice in a fresh view", o.id)
 		}
 		seenID[o.id] = true
-		f := o.cport - 1000
+		f := flowOfPort(o.cport)
 		ft := truth[f]
-		if ft == nil || o.sport != ft.sport {
+		if ft == nil || o.sport != ft.sport || o.cport != ft.cport {
 			h.complain("C10", "view shows stream %d (%d>%d) that no processed capture contains", o.id, o.cport, o.sport)
 			continue
 		}
@@ -1079,7 +1091,7 @@ func (h *harness) step(line string) (event, error) {
 			v.Release()
 			h.mgr.VerifDump()
 			for _, o := range obs {
-				idOfFlow[o.cport-1000] = int(o.id)
+				idOfFlow[flowOfPort(o.cport)] = int(o.id)
 			}
 			for fl, ft := range h.pendingTruth {
 				id, ok := idOfFlow[fl]
@@ -1381,21 +1393,25 @@ func gen(seed uint64, n int, w io.Writer) {
 			nd := 1 + r.Intn(3)
 			for j := 0; j < nd; j++ {
 				dir := "c"
-				if j > 0 && r.Bool() {
-					dir = "s"
+				if (j > 0 && r.Bool()) || (j == 0 && r.Chance(1, 3)) {
+					dir = "s" // (a server-first flow is turned client-first below, except in 1 capture of 4)
 				}
 				ms += 1 + r.Intn(5)
 				parts = append(parts, fmt.Sprintf("%d:%d:%s:%s", fl, ms, dir, lib.Pick(r, words)))
 			}
 		}
-		// within a capture the first datagram of every flow must come from the client side
-		seen := map[string]bool{}
-		for i, p := range parts {
-			y := strings.SplitN(p, ":", 4)
-			if !seen[y[0]] {
-				seen[y[0]] = true
-				y[2] = "c"
-				parts[i] = strings.Join(y, ":")
+		// mostly the first datagram of a flow in a capture comes from the client side; when it does not
+		// and the capture is the earliest of the flow, the stream's roles are swapped (a later capture
+		// with earlier client packets then resets the stream and swaps them back)
+		if !r.Chance(1, 4) {
+			seen := map[string]bool{}
+			for i, p := range parts {
+				y := strings.SplitN(p, ":", 4)
+				if !seen[y[0]] {
+					seen[y[0]] = true
+					y[2] = "c"
+					parts[i] = strings.Join(y, ":")
+				}
 			}
 		}
 		fmt.Fprintf(w, "pcap %s %s\n", name, strings.Join(parts, " "))
@@ -1415,6 +1431,47 @@ func gen(seed uint64, n int, w io.Writer) {
 			return r.Intn(6)
 		}
 		return r.Intn(len(g.flows))
+	}
+	// every third scenario opens with a directed prologue (random parameters) that sets up one of the
+	// regime interactions the properties name; the random part then continues from that state
+	if r.Chance(1, 3) {
+		fl := r.Intn(4)
+		word := lib.Pick(r, words)
+		tagPort := func() string {
+			return lib.Pick(r, []string{fmt.Sprintf("sport:%d", 2000+fl), fmt.Sprintf("cport:%d", 1000+fl), fmt.Sprintf("sport:%d", 1000+fl)})
+		}
+		switch r.Intn(6) {
+		case 0: // a stream is created with swapped roles, tagged on its endpoints, then reset by an earlier capture
+			fmt.Fprintf(w, "pcap q0.pcap %d:900:s:%s %d:905:c:%s\nimport q0.pcap\nrel import\n", fl, word, fl, word)
+			fmt.Fprintf(w, "addtag tag/a red %s\nrel tag\n", tagPort())
+			fmt.Fprintf(w, "pcap q1.pcap %d:100:c:%s\nimport q1.pcap\nrel import\n", fl, lib.Pick(r, words))
+			g.tags["tag/a"] = &genTag{}
+		case 1: // an import extends a stream while the tagging job of a data tag is parked
+			fmt.Fprintf(w, "pcap q0.pcap %d:100:c:%s\nimport q0.pcap\nrel import\n", fl, word)
+			fmt.Fprintf(w, "addtag tag/a red cdata:%s\n", lib.Pick(r, words))
+			fmt.Fprintf(w, "pcap q1.pcap %d:300:c:%s\nimport q1.pcap\nrel import\nrel tag\n", fl, lib.Pick(r, words))
+			g.tags["tag/a"] = &genTag{data: true}
+		case 2: // a mark changes while the job of a tag referencing it is parked
+			fmt.Fprintf(w, "pcap q0.pcap 0:100:c:%s 1:101:c:%s 2:102:c:%s\nimport q0.pcap\nrel import\n", word, word, word)
+			fmt.Fprintf(w, "addtag mark/m red id:%d\naddtag tag/a red %smark:m\n", r.Intn(3), lib.Pick(r, []string{"", "-"}))
+			fmt.Fprintf(w, "%s mark/m %d\nrel tag\n", lib.Pick(r, []string{"markadd", "markdel"}), r.Intn(3))
+			g.tags["mark/m"], g.tags["tag/a"] = &genTag{}, &genTag{refs: true}
+		case 3: // a view is held across a merge and a later import
+			fmt.Fprintf(w, "pcap q0.pcap 0:100:c:%s 1:101:c:%s\nimport q0.pcap\nrel import\n", word, word)
+			fmt.Fprintf(w, "pcap q1.pcap 2:300:c:%s\nimport q1.pcap\nrel import\nvopen 0\n", word)
+			fmt.Fprintf(w, "pcap q2.pcap %d:500:c:%s 3:501:c:x\nimport q2.pcap\nrel import\nrel any 0\nrel any 0\n", fl%3, lib.Pick(r, words))
+		case 4: // converter output exists, then the stream is extended / reset while a converter job is parked
+			fmt.Fprintf(w, "pcap q0.pcap %d:500:c:%s\nimport q0.pcap\nrel import\n", fl, word)
+			fmt.Fprintf(w, "addtag tag/a red sport:%d\nrel tag\nupdconv tag/a conv1\n", 2000+fl)
+			fmt.Fprintf(w, "pcap q1.pcap %d:%d:c:%s\nimport q1.pcap\nrel import\nrel convert\n", fl, lib.Pick(r, []int{100, 700}), lib.Pick(r, words))
+			g.tags["tag/a"] = &genTag{}
+		default: // a referenced tag is edited while the job of the referencing tag is parked
+			fmt.Fprintf(w, "pcap q0.pcap 0:100:c:%s 1:101:c:%s\nimport q0.pcap\nrel import\n", word, word)
+			fmt.Fprintf(w, "addtag tag/a red sport:2000\nrel tag\naddtag tag/b red tag:a\nupdq tag/a sport:2001\nrel tag\n")
+			g.tags["tag/a"], g.tags["tag/b"] = &genTag{}, &genTag{refs: true}
+		}
+		g.flows[fl] = true
+		clock = 1000
 	}
 	for i := 0; i < n; i++ {
 		if genCrash && r.Chance(1, 5) {
